@@ -4596,7 +4596,7 @@ class CIMProperty(_CIMComparisonMixin, SlottedPickleMixin):
         if embedded_object is None:
             embedded_object = _infer_embedded_object(value)
 
-        if embedded_object:
+        if embedded_object is not False:
             _check_embedded_object(embedded_object, type, value,
                                    "property", name)
 
@@ -5904,7 +5904,7 @@ class CIMParameter(_CIMComparisonMixin, SlottedPickleMixin):
         if embedded_object is None:
             embedded_object = _infer_embedded_object(value)
 
-        if embedded_object:
+        if embedded_object is not False:
             _check_embedded_object(embedded_object, type, value,
                                    "parameter", name)
 
